@@ -191,7 +191,7 @@ def units_of(script):
     lines = script.rstrip("\n").split("\n")
     head, body = [], []
     i = 0
-    while i < len(lines) and (lines[i].startswith(("codec", "cfg", "cookiecfg", "//"))):
+    while i < len(lines) and (lines[i].startswith(("codec", "cfg", "cookiecfg", "tz ", "//"))):
         head.append(lines[i])
         i += 1
     units = []
